@@ -18,13 +18,22 @@ Correspondence / exploration streams (each registered as an obligation):
     table computed cell by cell, handed to the Lean `fit` model): cache on/off, cache_maxsize
     1/2/big, dedupe on/off, both directions, repeated and look-alike substrates, rules as
     strings or graphs, two successive fits on one reactor, entry_n_jobs 1/2/4 (8 in thorough).
+ b' the option space of the `BatchReactor` constructor: entry-level x rule-level workers
+    (`parallel_rules`, `rule_n_jobs`, `allow_nested`; effective rule workers 2/3/4 crossed with
+    every rule-list length 1..7; nested; disabled by either flag; worker counts 0/-1), cache
+    flags, dedupe, rule objects shared between successive fits, semantic options
+    (explicit_h / implicit_temp / strategy) and rule pre-filters.  Batches are built so that
+    every rule of the list converts some substrate of the batch (a dropped, doubled or
+    misrouted rule is visible).  Two references, both computed per entry independently of the
+    batch and of history: the Lean `fit` model over the SynReactor table, and a fresh one-entry,
+    one-process, cache-less `BatchReactor` (the property's own right-hand side).
  c  `BatchCluster.fit` for every batch size 1..N vs one shot, partitions compared as partitions,
     and against the Lean model fed with isomorphism classes from the proven `isoDecide` engine.
  d  `validate_smiles` / `dicts_balance_check` with n_jobs 1 vs 4.
  e  `SynCRN.build(parallel=True)` vs `parallel=False`.
 
 Process start-up, pickling and scheduling of worker processes are runtime behaviour the model
-cannot exhibit: for those C14 is *partial* and streams b (n_jobs>1), d, e are exploration of
+cannot exhibit: for those C14 is *partial* and streams b, b' (with workers), d, e are exploration of
 the implementation only.
 """
 import contextlib
@@ -349,12 +358,37 @@ def run_heap(ctx, cases, tag):
 
 
 # ====================================================================== stream b: BatchReactor.fit
+SEM_DEFAULT = (True, False, "bt")          # (explicit_h, implicit_temp, strategy): BatchReactor's defaults
+SEMS = [(True, False, "bt"), (True, False, "all"), (True, False, "comp"), (False, True, "bt")]
+PRE_FILTERS = ["turbo", "sing", "nx"]
+
+
+def case_sem(case):
+    return tuple(case.get("sem") or SEM_DEFAULT)
+
+
+def eff_rule_jobs(case):
+    """worker processes `_apply_bulk` uses for the rules of one entry (1 = the serial loop)"""
+    rj = max(1, int(case.get("rule_n_jobs", 1)))
+    ej = max(1, int(case["n_jobs"]))
+    if case.get("parallel_rules") and rj > 1 and (case.get("allow_nested") or ej == 1):
+        return rj
+    return 1
+
+
+def uses_workers(case):
+    return max(1, int(case["n_jobs"])) > 1 or eff_rule_jobs(case) > 1
+
+
 class FitWorld:
     def __init__(self, rules_rsmi, subs):
         self.rules_rsmi = rules_rsmi
         self.subs = subs
         self._ref_rules = {}
         self._cells = {}
+        self._alone = {}
+        self._alone_rules = {}
+        self._hits = {}
         self.codes = {}
         self.strings = []
 
@@ -370,20 +404,54 @@ class FitWorld:
             self._ref_rules[t] = rsmi_to_its(self.rules_rsmi[t], core=True)
         return self._ref_rules[t]
 
-    def cell(self, s, t, inv):
+    def cell(self, s, t, inv, sem=SEM_DEFAULT):
         """SynReactor applied alone: one substrate graph, one rule, one direction."""
-        k = (s, t, inv)
+        sem = tuple(sem)
+        k = (s, t, inv) if sem == SEM_DEFAULT else (s, t, inv, sem)
         if k not in self._cells:
             from synkit.IO import smiles_to_graph
             from synkit.Synthesis.Reactor.syn_reactor import SynReactor
             g = smiles_to_graph(self.subs[s], drop_non_aam=False, use_index_as_atom_map=False)
             try:
-                out = list(SynReactor(substrate=g, template=self.ref_rule(t), invert=inv, strategy="bt",
-                                      explicit_h=True, implicit_temp=False).smarts_list)
+                out = list(SynReactor(substrate=g, template=self.ref_rule(t), invert=inv, strategy=sem[2],
+                                      explicit_h=sem[0], implicit_temp=sem[1]).smarts_list)
             except Exception:
                 out = []
             self._cells[k] = [self.code(x) for x in out]
         return self._cells[k]
+
+    def hits(self, inv, sem=SEM_DEFAULT):
+        """template -> substrates on which it alone gives products (direction, semantic options)"""
+        k = (inv, tuple(sem))
+        if k not in self._hits:
+            h = {}
+            for t in range(len(self.rules_rsmi)):
+                ss = [s for s in range(len(self.subs)) if self.cell(s, t, inv, sem)]
+                if ss:
+                    h[t] = ss
+            self._hits[k] = h
+        return self._hits[k]
+
+    def alone(self, s, rules, inv, dedupe, sem=SEM_DEFAULT, pre_filter=None):
+        """The property's own right-hand side, by the implementation: a one-entry batch holding only this
+        substrate, a fresh reactor, one process, no cache; rule graphs parsed once for this reference only
+        (never handed to a reactor under test).  -> list of strings | {'error': name}"""
+        sem = tuple(sem)
+        k = (s, tuple(rules), inv, dedupe, sem, pre_filter)
+        if k not in self._alone:
+            from synkit.IO import rsmi_to_its
+            from synkit.Synthesis.Reactor.batch_reactor import BatchReactor
+            try:
+                for t in rules:
+                    if t not in self._alone_rules:
+                        self._alone_rules[t] = rsmi_to_its(self.rules_rsmi[t], core=True)
+                br = BatchReactor([self.subs[s]], cache_enabled=False, dedupe=dedupe, explicit_h=sem[0], implicit_temp=sem[1],
+                                  strategy=sem[2], pre_filter_engine=pre_filter, enable_logging=False)
+                o = br.fit([self._alone_rules[t] for t in rules], invert=inv)[0]
+                self._alone[k] = list(o["syn_bw" if inv else "syn_fw"])
+            except Exception as e:  # noqa
+                self._alone[k] = {"error": type(e).__name__}
+        return self._alone[k]
 
 
 def fit_impl(world, case):
@@ -393,16 +461,36 @@ def fit_impl(world, case):
     data = [world.subs[i] for i in case["subs"]]
     if case.get("as_dict"):
         data = [{"smi": x, "n": j} for j, x in enumerate(data)]
-    br = BatchReactor(data, host_key="smi" if case.get("as_dict") else None, cache_enabled=case["cache_on"],
-                      cache_maxsize=case["cache_max"], dedupe=case["dedupe"], entry_n_jobs=case["n_jobs"],
-                      enable_logging=False)
+    kw = {}
+    for k in ("rule_n_jobs", "parallel_rules", "allow_nested"):     # absent -> the constructor's defaults
+        if k in case:
+            kw[k] = case[k]
+    if case.get("sem"):
+        kw.update(explicit_h=case["sem"][0], implicit_temp=case["sem"][1], strategy=case["sem"][2])
+    if case.get("pre_filter"):
+        kw["pre_filter_engine"] = case["pre_filter"]
+    workers = uses_workers(case)
+    shared = {}                                # rules_as == "graph_shared": one graph object per template for the whole case
     res = []
+    try:
+        br = BatchReactor(data, host_key="smi" if case.get("as_dict") else None, cache_enabled=case["cache_on"],
+                          cache_maxsize=case["cache_max"], dedupe=case["dedupe"], entry_n_jobs=case["n_jobs"],
+                          enable_logging=False, **kw)
+    except Exception as e:  # noqa
+        return [{"error": "constructor:" + type(e).__name__} for _ in case["seq"]]
     for f in case["seq"]:
         rules = [world.rules_rsmi[t] for t in f["rules"]]
         if case["rules_as"] == "graph":
             rules = [rsmi_to_its(r, core=True) for r in rules]
+        elif case["rules_as"] == "graph_shared":
+            for t in f["rules"]:
+                if t not in shared:
+                    shared[t] = rsmi_to_its(world.rules_rsmi[t], core=True)
+            rules = [shared[t] for t in f["rules"]]
+        elif case["rules_as"] == "mixed":
+            rules = [rsmi_to_its(r, core=True) if j % 2 else r for j, r in enumerate(rules)]
         try:
-            if case["n_jobs"] > 1:
+            if workers:
                 with quiet_stderr():
                     out = br.fit(rules, invert=f["inv"])
             else:
@@ -423,7 +511,7 @@ def fit_model_requests(world, case):
         table = []
         for s in sorted(set(case["subs"])):
             for t in sorted(set(f["rules"])):
-                table.append([s, t, f["inv"], world.cell(s, t, f["inv"])])
+                table.append([s, t, f["inv"], world.cell(s, t, f["inv"], case_sem(case))])
         reqs.append({"cmd": "batch.fit", "cache_on": case["cache_on"], "cache_max": case["cache_max"], "pin": True,
                      "dedupe": case["dedupe"], "alloc": "lowest", "inv": f["inv"], "batch": case["subs"],
                      "rules": f["rules"], "table": table})
@@ -468,12 +556,73 @@ def fit_compare(world, case, impl, models, ctx=None):
     return None
 
 
+def same_results(got, want):
+    """-> 'list' | 'multiset' | 'standardised' | None.  The gate is the multiset of standardised reaction
+    SMILES (what the property fixes); equality as lists / as raw multisets is only counted."""
+    if got == want:
+        return "list"
+    if sorted(got) == sorted(want):
+        return "multiset"
+    if sorted(std_rsmi(x) for x in got) == sorted(std_rsmi(x) for x in want):
+        return "standardised"
+    return None
+
+
+def alone_compare(world, case, impl, ctx=None):
+    """Every entry of every fit against `world.alone`: the same rule list applied by a fresh one-entry,
+    one-process, cache-less reactor with the same semantic options.  Independent of the Lean model, of the
+    batch, of earlier fits and of every operational option.  -> None or (text, detail)"""
+    sem, pf = case_sem(case), case.get("pre_filter")
+    for fi, (f, got) in enumerate(zip(case["seq"], impl)):
+        if isinstance(got, dict):
+            return f"fit #{fi} raised {got['error']}", {"fit": fi}
+        if len(got) != len(case["subs"]):
+            return f"fit #{fi} returned {len(got)} entries for {len(case['subs'])} substrates", {"fit": fi}
+        for ei, g in enumerate(got):
+            si = case["subs"][ei]
+            want = world.alone(si, f["rules"], f["inv"], case["dedupe"], sem, pf)
+            if isinstance(want, dict):
+                return (f"fit #{fi} entry {ei}: the batch returned a result, the substrate alone raises {want['error']}",
+                        {"fit": fi, "entry": ei, "substrate": world.subs[si]})
+            if not g["has_key"] or g["n_keys"] != 2:
+                return f"fit #{fi} entry {ei}: result dict keys unexpected", {"fit": fi, "entry": ei}
+            if g["count"] != len(g["out"]):
+                return f"fit #{fi} entry {ei}: count {g['count']} != len(out) {len(g['out'])}", {"fit": fi, "entry": ei}
+            how = same_results(g["out"], want)
+            if how is not None:
+                if ctx is not None:
+                    ctx.count("b':entries_equal_to_alone_as_" + how)
+                continue
+            sg, sw = sorted(std_rsmi(x) for x in g["out"]), sorted(std_rsmi(x) for x in want)
+            return (f"fit #{fi} entry {ei} ({world.subs[si]}): batch result differs from a one-entry, one-process, cache-less "
+                    f"BatchReactor holding only this substrate (same rules, same direction)",
+                    {"fit": fi, "entry": ei, "substrate": world.subs[si], "n_batch": len(sg), "n_alone": len(sw),
+                     "batch": sg[:12], "alone": sw[:12],
+                     "only_in_batch": sorted(set(sg) - set(sw))[:6], "only_alone": sorted(set(sw) - set(sg))[:6]})
+    return None
+
+
+def fit_check(world, case, impl, models, ctx=None):
+    """All gates of one fit case.  `models` is None when the case has a pre-filter (the Lean fit model takes
+    the per-rule table of SynReactor alone, which does not know rule pre-filtering)."""
+    d = fit_compare(world, case, impl, models, ctx) if models is not None else None
+    if d is None and case.get("alone"):
+        d = alone_compare(world, case, impl, ctx)
+    return d
+
+
+def fit_eval(ctx, world, case):
+    impl = fit_impl(world, case)
+    models = None if case.get("pre_filter") else ctx.lean().ok(fit_model_requests(world, case))
+    return fit_check(world, case, impl, models)
+
+
 def productive(world, case):
     """number of distinct non-empty per-entry reference results of the first fit"""
     f = case["seq"][0]
     outs = set()
     for s in case["subs"]:
-        o = tuple(sorted(c for t in f["rules"] for c in world.cell(s, t, f["inv"])))
+        o = tuple(sorted(c for t in f["rules"] for c in world.cell(s, t, f["inv"], case_sem(case))))
         if o:
             outs.add(o)
     return len(outs)
@@ -517,48 +666,205 @@ def gen_fit_case(rnd, nS, nT, look_pairs, n_jobs=1, max_batch=7, min_batch=1):
             "rules_as": rnd.choice(["str", "graph"]), "n_jobs": n_jobs, "as_dict": rnd.random() < 0.2}
 
 
+def ref_entry(world, case, f, s, rules=None):
+    """reference result (codes, sorted) of one entry: cells concatenated in rule order, de-duplicated if the case says so"""
+    flat = [c for t in (f["rules"] if rules is None else rules) for c in world.cell(s, t, f["inv"], case_sem(case))]
+    if case["dedupe"]:
+        flat = list(dict.fromkeys(flat))
+    return sorted(flat)
+
+
+def rules_that_matter(world, case):
+    """(#positions of the first fit's rule list whose removal changes the reference result of some entry, #positions)"""
+    f = case["seq"][0]
+    full = {s: ref_entry(world, case, f, s) for s in set(case["subs"])}
+    n = 0
+    for j in range(len(f["rules"])):
+        rest = f["rules"][:j] + f["rules"][j + 1:]
+        if any(ref_entry(world, case, f, s, rest) != full[s] for s in full):
+            n += 1
+    return n, len(f["rules"])
+
+
 def run_fit(ctx, world, cases, tag):
-    for case in cases:
-        impl = fit_impl(world, case)
-        models = ctx.lean().ok(fit_model_requests(world, case))
-        nonempty = sum(1 for m in models if "ok" in m["fit"] for e in m["fit"]["ok"] if e)
-        ctx.count(f"b:n_jobs={case['n_jobs']}")
-        ctx.count(f"b:cache_{'on' if case['cache_on'] else 'off'}")
-        ctx.count(f"b:cache_max={case['cache_max'] if case['cache_max'] < BIG else 'big'}")
-        ctx.count(f"b:dedupe_{'on' if case['dedupe'] else 'off'}")
-        ctx.count("b:fits", len(case["seq"]))
-        ctx.count("b:entries", len(case["subs"]) * len(case["seq"]))
-        ctx.count("b:entries_with_products", nonempty)
+    # phase 1: the implementation, case by case, in the order given (worker pools are reused between neighbours)
+    impls = [fit_impl(world, case) for case in cases]
+    # phase 2: the Lean fit model, every fit from the empty state (pure: independent of history), one driver call
+    reqs, where = [], []
+    for ci, case in enumerate(cases):
+        if case.get("pre_filter"):
+            continue
+        rr = fit_model_requests(world, case)
+        where.append((ci, len(reqs), len(rr)))
+        reqs.extend(rr)
+    ans = ctx.lean().ok(reqs, shards=8) if reqs else []
+    models_of = {ci: ans[a:a + n] for ci, a, n in where}
+    # phase 3: gates
+    for ci, (case, impl) in enumerate(zip(cases, impls)):
+        models = models_of.get(ci)
+        opt = bool(case.get("alone"))
+        pre = "b':" if opt else "b:"
+        if models is not None:
+            nonempty = sum(1 for m in models if "ok" in m["fit"] for e in m["fit"]["ok"] if e)
+        else:
+            nonempty = sum(1 for got in impl if isinstance(got, list) for g in got if g["out"])
+        ctx.count(f"{pre}n_jobs={case['n_jobs']}")
+        ctx.count(f"{pre}cache_{'on' if case['cache_on'] else 'off'}")
+        ctx.count(f"{pre}cache_max={case['cache_max'] if case['cache_max'] < BIG else 'big'}")
+        ctx.count(f"{pre}dedupe_{'on' if case['dedupe'] else 'off'}")
+        ctx.count(f"{pre}fits", len(case["seq"]))
+        ctx.count(f"{pre}entries", len(case["subs"]) * len(case["seq"]))
+        ctx.count(f"{pre}entries_with_products", nonempty)
         if len(set(case["subs"])) < len(case["subs"]):
-            ctx.count("b:batches_with_repeated_substrate")
-        ctx.case(["fit", case], nonempty >= 1 and len(case["subs"]) >= 2,
-                 sample={"stream": "b:" + tag, **{k: case[k] for k in ("subs", "seq", "cache_on", "cache_max", "dedupe", "n_jobs")},
-                         "substrates": [world.subs[i] for i in case["subs"]]} if len(case["subs"]) <= 3 and want_sample(ctx, "b:", 2) else None)
-        d = fit_compare(world, case, impl, models, ctx)
+            ctx.count(f"{pre}batches_with_repeated_substrate")
+        nontrivial = nonempty >= 1 and len(case["subs"]) >= 2
+        if opt:
+            ej = eff_rule_jobs(case)
+            k = len(case["seq"][0]["rules"])
+            ctx.count(f"b':group={case.get('group', '?')}")
+            ctx.count(f"b':effective_rule_workers={ej}")
+            ctx.count(f"b':rule_n_jobs={case.get('rule_n_jobs', 'default')}")
+            ctx.count(f"b':parallel_rules={case.get('parallel_rules', 'default')},allow_nested={case.get('allow_nested', 'default')}")
+            ctx.count(f"b':first_rule_list_length={k}")
+            ctx.count(f"b':sem={'/'.join(map(str, case_sem(case)))}")
+            ctx.count(f"b':pre_filter={case.get('pre_filter')}")
+            ctx.count(f"b':rules_as={case['rules_as']}")
+            if ej > 1 and k > ej and k % ej:
+                ctx.count("b':rule_list_longer_than_and_not_a_multiple_of_the_rule_workers")
+            m, n = rules_that_matter(world, case)
+            ctx.count("b':rule_positions", n)
+            ctx.count("b':rule_positions_that_matter_for_some_entry", m)
+            nontrivial = n >= 1 and m == n
+        ctx.case(["fit", case], nontrivial,
+                 sample={"stream": pre + tag, **{k: case[k] for k in ("subs", "seq", "cache_on", "cache_max", "dedupe", "n_jobs")},
+                         **{k: case[k] for k in ("rule_n_jobs", "parallel_rules", "allow_nested", "sem", "pre_filter") if k in case},
+                         "substrates": [world.subs[i] for i in case["subs"]]}
+                 if len(case["subs"]) <= 3 and want_sample(ctx, pre, 2) else None)
+        d = fit_check(world, case, impl, models, ctx)
         if d is None:
             continue
 
         def fails(c):
             if not c["subs"] or any(not f["rules"] for f in c["seq"]):
                 return False
-            return fit_compare(world, c, fit_impl(world, c), ctx.lean().ok(fit_model_requests(world, c))) is not None
+            return fit_eval(ctx, world, c) is not None
         small = dict(case)
-        if case["n_jobs"] == 1:
-            small["subs"] = shrink_seq(case["subs"], lambda ss: fails({**small, "subs": ss}), budget=25)
-            for i in range(len(small["seq"])):
-                def with_rules(rr, i=i):
-                    seq = [dict(f) for f in small["seq"]]
-                    seq[i]["rules"] = rr
-                    return {**small, "seq": seq}
-                rr = shrink_seq(small["seq"][i]["rules"], lambda r: fails(with_rules(r)), budget=15)
-                small = with_rules(rr)
-        d2 = fit_compare(world, small, fit_impl(world, small), ctx.lean().ok(fit_model_requests(world, small))) or d
+        b_subs, b_rules = (25, 15) if not uses_workers(case) else (8, 12)
+        small["subs"] = shrink_seq(case["subs"], lambda ss: fails({**small, "subs": ss}), budget=b_subs)
+        for i in range(len(small["seq"])):
+            def with_rules(rr, i=i):
+                seq = [dict(f) for f in small["seq"]]
+                seq[i]["rules"] = rr
+                return {**small, "seq": seq}
+            rr = shrink_seq(small["seq"][i]["rules"], lambda r: fails(with_rules(r)), budget=b_rules)
+            small = with_rules(rr)
+        d2 = fit_eval(ctx, world, small) or d
         ctx.violation("BatchReactor.fit result for an entry differs from applying the rules to that substrate alone",
                       {**small, "substrates": [world.subs[i] for i in small["subs"]],
                        "rules_rsmi": [[world.rules_rsmi[t] for t in f["rules"]] for f in small["seq"]]},
-                      {"what": d2[0], **d2[1], "stream": tag})
+                      {"what": d2[0], **d2[1], "stream": tag,
+                       "options": {k: small.get(k) for k in ("n_jobs", "rule_n_jobs", "parallel_rules", "allow_nested", "cache_on",
+                                                             "cache_max", "dedupe", "rules_as", "sem", "pre_filter")},
+                       "effective_rule_workers": eff_rule_jobs(small),
+                       "rule_list_lengths": [len(f["rules"]) for f in small["seq"]]})
         if nviol(ctx) >= 4:
             return
+
+
+# ---------------------------------------------------------------------- stream b': the option space of BatchReactor
+def gen_rule_list(rnd, world, k, inv, sem, within=None):
+    """k templates that give products (direction, options) - on some corpus substrate, or on one of `within`;
+    distinct while the supply lasts, then repeats; random order, so every template can be the trailing one"""
+    H = world.hits(inv, sem)
+    cands = sorted(t for t in H if within is None or any(s in within for s in H[t]))
+    if not cands:
+        return []
+    rl = rnd.sample(cands, k) if k <= len(cands) else cands + rnd.choices(cands, k=k - len(cands))
+    rnd.shuffle(rl)
+    return rl
+
+
+def gen_opt_case(rnd, world, look_pairs, k, opts, full_sems=False):
+    """One batch built so that EVERY rule of the (first) rule list matters for some entry: for each template
+    a substrate it converts is in the batch.  `opts`: the operational options of the reactor."""
+    sem = rnd.choices(SEMS, weights=[6, 2, 2, 2] if full_sems else [6, 0, 3, 2])[0]
+    inv = rnd.random() < 0.35
+    if not world.hits(inv, sem):
+        inv = not inv
+    rl = gen_rule_list(rnd, world, k, inv, sem)
+    H = world.hits(inv, sem)
+    subs = []
+    for t in dict.fromkeys(rl):
+        if any(s in subs for s in H[t]) and rnd.random() < 0.4:
+            continue
+        subs.append(rnd.choice(H[t]))
+    x = rnd.random()
+    if x < 0.25:
+        subs.append(rnd.choice(subs))                       # repeated substrate
+    elif x < 0.45:
+        subs.extend(rnd.choice(look_pairs))                 # look-alike pair: same composition
+    elif x < 0.55:
+        subs.append(rnd.randrange(len(world.subs)))         # most likely inert
+    rnd.shuffle(subs)
+    seq = [{"rules": rl, "inv": inv}]
+    y = rnd.random()
+    for _ in range(0 if y < 0.45 else (1 if y < 0.85 else 2)):
+        how = rnd.choice(["perm", "rot", "drop_last", "same", "flip", "fresh", "fresh"])
+        r2, i2 = list(seq[-1]["rules"]), seq[-1]["inv"]
+        if how == "perm":
+            rnd.shuffle(r2)
+        elif how == "rot":
+            r2 = r2[1:] + r2[:1]
+        elif how == "drop_last" and len(r2) > 1:
+            r2 = r2[:-1]
+        elif how == "flip":
+            i2 = not i2
+        elif how == "fresh":
+            i2 = rnd.random() < 0.35
+            r2 = gen_rule_list(rnd, world, rnd.randint(1, 7), i2, sem, within=set(subs)) or r2
+        seq.append({"rules": r2, "inv": i2})
+    case = {"stream": "fit", "alone": True, "subs": subs, "seq": seq,
+            "cache_on": rnd.random() < 0.7, "cache_max": rnd.choice([1, 2, 3, BIG, BIG]), "dedupe": rnd.random() < 0.5,
+            "rules_as": rnd.choice(["str", "graph", "graph_shared", "graph_shared", "mixed"]),
+            "as_dict": rnd.random() < 0.15, "sem": list(sem)}
+    if rnd.random() < 0.2:
+        case["pre_filter"] = rnd.choice(PRE_FILTERS)
+    case.update(opts)
+    return case
+
+
+def gen_opt_cases(rnd, world, look_pairs, quick):
+    """The constructor's operational options: entry_n_jobs x (parallel_rules, rule_n_jobs, allow_nested) x cache x dedupe,
+    crossed with rule-list lengths 1..7.  Ordered so that neighbouring cases use the same worker pool."""
+    cases = []
+    # G1  rule-level workers only: every (length, workers) pair
+    for rj in (2, 3, 4):
+        for k in range(1, 8):
+            for _ in range(2 if quick else 8):
+                cases.append(gen_opt_case(rnd, world, look_pairs, k, {
+                    "group": "rule-workers", "n_jobs": rnd.choice([1, 1, 1, 0]), "parallel_rules": True, "rule_n_jobs": rj,
+                    "allow_nested": rnd.random() < 0.5}, not quick))
+    # G2  nested: entry-level workers that start rule-level workers
+    for ej, rj in ([(2, 2), (2, 3)] if quick else [(2, 2), (2, 3), (3, 2), (3, 3), (2, 4)]):
+        for _ in range(2 if quick else 4):
+            cases.append(gen_opt_case(rnd, world, look_pairs, rnd.randint(rj + 1, 7), {
+                "group": "nested", "n_jobs": ej, "parallel_rules": True, "rule_n_jobs": rj, "allow_nested": True}, not quick))
+    # G3  entry-level workers with the rule-level request switched off by one of the flags
+    for ej in ((2,) if quick else (2, 3, 4)):
+        for _ in range(3 if quick else 6):
+            flags = rnd.choice([{"parallel_rules": True, "rule_n_jobs": rnd.choice([2, 3]), "allow_nested": False},
+                                {"parallel_rules": False, "rule_n_jobs": rnd.choice([2, 3]), "allow_nested": True},
+                                {"parallel_rules": True, "rule_n_jobs": 1, "allow_nested": True}])
+            cases.append(gen_opt_case(rnd, world, look_pairs, rnd.randint(1, 7), {"group": "entry-workers", "n_jobs": ej, **flags}, not quick))
+    # G4  one process whatever the flags say (parallel_rules off, or a worker count that max(1, .) turns into 1)
+    for _ in range(50 if quick else 700):
+        flags = rnd.choice([{"parallel_rules": False, "rule_n_jobs": rnd.choice([2, 3, 4, 8])},
+                            {"parallel_rules": False, "rule_n_jobs": rnd.choice([2, 4]), "allow_nested": True},
+                            {"parallel_rules": True, "rule_n_jobs": rnd.choice([1, 0, -1])},
+                            {"parallel_rules": True, "rule_n_jobs": 1, "allow_nested": True},
+                            {}])
+        cases.append(gen_opt_case(rnd, world, look_pairs, rnd.randint(1, 7), {"group": "one-process", "n_jobs": rnd.choice([1, 1, 0, -1]), **flags}, not quick))
+    return cases
 
 
 def run_dedupe(ctx, rnd, n):
@@ -873,7 +1179,8 @@ def run(ctx):
     ctx.assumptions = [
         "graph objects are not edited while a cache entry computed from them exists (an id-keyed cache presumes it)",
         "cache_maxsize >= 1 when the cache is enabled (size 0 raises StopIteration on both trees: recorded as an observation, not gated)",
-        "BatchReactor without pre_filter_engine, engine 'syn'; rule parallelism (parallel_rules) not exercised",
+        "BatchReactor with react_engine 'syn' (the 'mod' engine needs the external package `mod`, not installed); with a "
+        "pre_filter_engine the reference is the implementation itself on the one-entry batch (the Lean fit model has no pre-filter)",
         "clustering attributes are strings or attribute_key=None (list-valued attributes are sorted by the one-shot path only)",
     ]
     ctx.gen_rule = (
@@ -882,9 +1189,17 @@ def run(ctx):
         "cache off / sizes 1,2,3,8,big). (b) random batches (1..7 entries; repeated and same-formula look-alike substrates from "
         "corpus/c14_substrates.json; 1..5 templates from corpus/c14_templates.json, repeated rules; 1-2 fits per reactor; both "
         "directions; rules as strings or graphs) x cache on/off x cache_maxsize {1,2,3,big} x dedupe x entry_n_jobs {1; 2,4; 8 thorough}. "
+        "(b') the constructor's option space: rule lists of every length 1..7 built so that each rule converts some substrate of the "
+        "batch (substrates picked from the template's hit list; repeated / look-alike / inert extras), x effective rule workers "
+        "{2,3,4} (parallel_rules, entry_n_jobs in {0,1}), nested (entry_n_jobs 2-3 x rule_n_jobs 2-4, allow_nested), entry workers "
+        "with the rule-level request disabled by either flag, and one-process settings of all flags (worker counts 0/-1 included) "
+        "x cache on/off x cache_maxsize {1,2,3,big} x dedupe x rules as strings / fresh graphs / graph objects shared between "
+        "fits / mixed x semantic options (explicit_h, implicit_temp, strategy bt/all/comp) x pre-filter {none, turbo, sing, nx}; "
+        "1-3 fits per reactor (permuted, rotated, shortened, repeated, other direction, fresh list). "
         "(c) random item lists (3..9 reaction centres of corpus/c14_reactions.json, with repeats) x attribute {none, element signature, "
         "size} x matcher config {default, element-only}, every batch size 1..N+1 and one shot. (d) n_jobs 1 vs 4. (e) parallel vs serial.")
-    ctx.nontrivial_rule = ("(a) >=2 calls and a release or an identity reuse; (b) >=2 entries and >=1 entry with products; (c) >=3 items, "
+    ctx.nontrivial_rule = ("(a) >=2 calls and a release or an identity reuse; (b) >=2 entries and >=1 entry with products; (b') removing any single position of the first rule list changes the "
+                           "reference result of some entry; (c) >=3 items, "
                            "2 <= #classes < #items; (d),(e) every case; distinct as JSON values")
     build_and_audit(ctx, ["SynKitProofs.Props.C14"], "SynKitProofs/Audit/C14.lean", THEOREMS)
 
@@ -901,8 +1216,11 @@ def run(ctx):
     rnd = ctx.rnd
     # ---- regressions
     reg = load_regress()
-    for c in reg:
-        run_one(ctx, c, "regress")
+    try:
+        for c in reg:
+            run_one(ctx, c, "regress")
+    finally:
+        shutdown_workers()
     ctx.count("regress_cases", len(reg))
     ctx.obligation("regression corpus regress/C14 replays clean", nviol(ctx) == 0)
 
@@ -952,6 +1270,17 @@ def run(ctx):
                    nviol(ctx) == nb)
 
     lap("b")
+    # ---- b': the whole option space of the constructor, rule lists of length 1..7 in which every rule matters
+    nb2 = nviol(ctx)
+    try:
+        ocases = gen_opt_cases(rnd, world, pairs, ctx.quick)
+        run_fit(ctx, world, ocases, "options")
+    finally:
+        shutdown_workers()
+    ctx.obligation("correspondence b': BatchReactor.fit per entry == the rules applied to that substrate alone, for every setting of "
+                   "entry_n_jobs / rule_n_jobs / parallel_rules / allow_nested / cache / dedupe / semantic options / pre-filter "
+                   "(Lean fit model and a one-entry one-process cache-less reactor)", nviol(ctx) == nb2)
+    lap("b'")
     # ---- c
     nc = nviol(ctx)
     cw = cluster_world(ctx, reactions)
